@@ -76,27 +76,34 @@ theorem importSafe_sound {n : Nat} {edges : Edges} {flagged : List Nat}
   intro hf
   exact Nat.lt_irrefl _ (Nat.lt_of_lt_of_le hk (hF k hf))
 
-theorem noRootReachesSeed_sound {n : Nat} {edges : Edges} {seeds B : List Nat}
-    (h : noRootReachesSeed n edges seeds B = true) :
+theorem closedUnderRevMask_sound {edges : Edges} {mask : Nat} (h : closedUnderRevMask edges mask = true) :
+    ∀ a b, (a, b) ∈ edges → inMask mask b = true → inMask mask a = true := by
+  intro a b he hb
+  have := (List.all_eq_true.mp h) (a, b) he
+  simp only [Bool.or_eq_true, Bool.not_eq_true'] at this
+  rcases this with h1 | h1
+  · rw [h1] at hb; cases hb
+  · exact h1
+
+theorem noRootReachesSeed_sound {n : Nat} {edges : Edges} {seeds : List Nat} {mask : Nat}
+    (h : noRootReachesSeed n edges seeds mask = true) :
     ∀ m, m < n → ∀ s ∈ seeds, ¬ Reach edges m s := by
-  simp only [noRootReachesSeed, Bool.and_eq_true, List.all_eq_true, decide_eq_true_eq,
-    List.contains_iff_mem] at h
-  obtain ⟨⟨hS, hC⟩, hB⟩ := h
+  simp only [noRootReachesSeed, Bool.and_eq_true, List.all_eq_true, List.mem_range,
+    Bool.not_eq_true'] at h
+  obtain ⟨⟨hB, hS⟩, hC⟩ := h
   intro m hm s hs hr
-  have hmB : m ∈ B :=
-    backward_closed_sound edges (· ∈ B) (closedUnderRev_sound hC) m s hr (hS s hs)
-  exact Nat.lt_irrefl _ (Nat.lt_of_lt_of_le hm (hB m hmB))
+  have hmB : inMask mask m = true :=
+    backward_closed_sound edges (fun i => inMask mask i = true) (closedUnderRevMask_sound hC) m s hr (hS s hs)
+  rw [hB m hm] at hmB; cases hmB
 
 /-- completeness of the generated backward closure, stated on its own: every node with a path
-to a seed is listed in `B`. -/
-theorem backward_closure_complete {edges : Edges} {seeds B : List Nat}
-    (hS : seeds.all (fun s => B.contains s) = true) (hC : closedUnderRev edges B = true) :
-    ∀ a, ∀ s ∈ seeds, Reach edges a s → a ∈ B := by
+to a seed is in the set `mask`. -/
+theorem backward_closure_complete {edges : Edges} {seeds : List Nat} {mask : Nat}
+    (hS : seeds.all (fun s => inMask mask s) = true) (hC : closedUnderRevMask edges mask = true) :
+    ∀ a, ∀ s ∈ seeds, Reach edges a s → inMask mask a = true := by
   intro a s hs hr
-  have hS' : s ∈ B := by
-    have := (List.all_eq_true.mp hS) s hs
-    exact List.contains_iff_mem.mp this
-  exact backward_closed_sound edges (· ∈ B) (closedUnderRev_sound hC) a s hr hS'
+  exact backward_closed_sound edges (fun i => inMask mask i = true) (closedUnderRevMask_sound hC) a s hr
+    ((List.all_eq_true.mp hS) s hs)
 
 /-! ### the executable closure only lists nodes that really are reachable -/
 
